@@ -125,13 +125,40 @@ structure Behaviour (σ : Type) where
   burnCoins : σ → (caller fromA : Addr) → Nat → Call σ
 
 structure World (σ : Type) where
-  enabled : Bool                    -- params.EnableAggregate
+  params : String → Bool            -- x/params subspace "aggregate": parameter store key ↦ stored value
   pairs : Id → Option Pair          -- KeyPrefixTokenPair
   byErc20 : Addr → Option Id        -- KeyPrefixTokenPairByERC20
   byDenom : Denom → Option Id       -- KeyPrefixTokenPairByDenom
   bank : Bank
   tok : Addr → σ                    -- storage of the contract at an address
   code : Addr → Bool                -- account exists and `IsContract()`
+
+/-! ### parameters (x/aggregate/types/params.go)
+
+The x/params store is addressed BY KEY (that is how a governance `ParameterChangeProposal` writes it); the keeper's
+`GetParams` fills the fields of `Params` through `ParamSetPairs`, which binds each key to one field. -/
+
+def keyEnableAggregate : String := "EnableAggregate"     -- ParamStoreKeyEnableAggregate
+def keyEnableEVMHook : String := "EnableEVMHook"         -- ParamStoreKeyEnableEVMHook
+
+/-- `Params.ParamSetPairs`: (store key, field). -/
+def paramPairs : List (String × String) :=
+  [(keyEnableAggregate, "EnableAggregate"), (keyEnableEVMHook, "EnableEVMHook")]
+
+/-- the store key a field of `Params` is read from / written to -/
+def keyOfField (field : String) : String :=
+  match paramPairs.find? (fun kf => kf.2 == field) with
+  | some kf => kf.1
+  | none => ""
+
+/-- `GetParams(ctx).EnableAggregate` -/
+def World.enabled {σ : Type} (w : World σ) : Bool := w.params (keyOfField "EnableAggregate")
+
+/-- `GetParams(ctx).EnableEVMHook` (no behaviour depends on it: `PostTxProcessing` is a stub) -/
+def World.evmHook {σ : Type} (w : World σ) : Bool := w.params (keyOfField "EnableEVMHook")
+
+def World.setParam {σ : Type} (w : World σ) (key : String) (b : Bool) : World σ :=
+  { w with params := fun k => if k = key then b else w.params k }
 
 /-! ### bank primitives (cosmos-sdk v0.45.2) -/
 
@@ -512,7 +539,8 @@ inductive Action where
   | userMint (c caller to : Addr) (amt : Nat)          -- any account calls `mint`
   | userBurn (c caller fromA : Addr) (amt : Nat)       -- any account calls `burnCoins`
   | bankSend (src dst : Addr) (d : Denom) (amt : Nat)  -- bank `MsgSend`
-  | setEnabled (b : Bool)                              -- parameter change
+  | setEnabled (b : Bool)                              -- `keeper.SetParams` with EnableAggregate := b (writes every field through its key)
+  | setParamByKey (key : String) (b : Bool)            -- governance `ParameterChangeProposal` (subspace "aggregate", key, value)
   | toggle (token : String)                            -- `ToggleRelay`
   | setSendEnabled (d : Denom) (b : Bool)
   | selfdestruct (c : Addr)
@@ -548,7 +576,8 @@ def step (B : Addr → Behaviour σ) (w : World σ) : Action → World σ
   | .userMint c caller to amt => if w.code c then applyCall w c ((B c).mint (w.tok c) caller to amt) else w
   | .userBurn c caller fromA amt => if w.code c then applyCall w c ((B c).burnCoins (w.tok c) caller fromA amt) else w
   | .bankSend s d dn amt => { w with bank := bankMsgSend w.bank s d dn amt }
-  | .setEnabled b => { w with enabled := b }
+  | .setEnabled b => w.setParam (keyOfField "EnableAggregate") b
+  | .setParamByKey key b => w.setParam key b
   | .toggle t => toggleRelay w t
   | .setSendEnabled d b => { w with bank := { w.bank with sendEnabled := fun d' => if d' = d then b else w.bank.sendEnabled d' } }
   | .selfdestruct c => { w with code := fun a => if a = c then false else w.code a }
